@@ -391,8 +391,23 @@ def main(argv):
                 rc, out, dt = 124, "harness timed out", 0
             log.append((f"hv {pid} {kind} seed={seed} n={n}", rc, dt, out[-3000:]))
             if rc != 0:
-                broken.append(f"harness run failed (exit {rc}) on {kind} seed={seed}: {out[-300:]}")
-                batch.crashed = f"harness exit {rc}"
+                # the code under test took the process down (log.Fatal / os.Exit / fatal error / watchdog):
+                # history so far + the pending operation is the reproducer
+                hist = []
+                try:
+                    hist = op_lines(od)
+                except OSError:
+                    pass
+                start = max([i for i, l in enumerate(hist) if l == "reset" or l.startswith("reset ")] or [0])
+                case = [case_key(l) for l in hist[start:]]
+                try:
+                    case.append(open(os.path.join(od, "pending.txt")).read().strip())
+                except OSError:
+                    pass
+                cls = f"{pid}.process-exit"
+                batch.specfails.append((cls, case, f"SPECFAIL class={cls} the teamserver process exits (code {rc}) while handling the last operation: "
+                                        + out[-200:].replace("\n", " ")))
+                batch.lines += len(hist)
                 continue
             evaluate(pid, od, batch)
             if batch.crashed:
